@@ -73,8 +73,6 @@ def check_structure(a, monitor):
             return 'adjacent free blocks %r %r (not coalesced)' % (x, y)
     infreed = {}
     for k, s in a._freed.items():
-        if not s:
-            return 'empty size class %r kept in _freed' % (k,)
         for b in s:
             if b.used or b.size != k or not (0 <= b.start - off < size) or a._array[b.start - off] is not b:
                 return '_freed[%r] holds %r which is not a free block of _array of that size' % (k, b)
